@@ -255,9 +255,30 @@ def gen_seq(rng, getters):
     return {"init": init, "steps": steps, "seed": rng.randint(0, 1 << 30), "getters": getters}
 
 
+TINY = [m * 1e-9 * sg for m in (0.3, 0.49, 0.51, 0.7, 0.99, 1.01, 1.6) for sg in (1.0, -1.0)]
+
+
+def tiny_ctor(rng):
+    """a quantity whose values sit around the 0.5e-9 / 1e-9 tolerance boundaries (never on one)"""
+    mon = rng.random() < 0.5
+    n = rng.randint(1, 3)
+
+    def one():
+        r = rng.random()
+        return 0.0 if r < 0.5 else rng.choice(TINY) if r < 0.9 else float(rng.randint(1, 64)) / 64
+
+    def side():
+        return {"t": "arr", "v": [one() for _ in range(n)]} if mon else {"t": "float", "v": one()}
+    sfx = EACH if mon else ""
+    return {"k": side(), "f": side(), "p": side(), "lk": "billion kcals" + sfx, "lf": "thousand tons" + sfx,
+            "lp": "thousand tons" + sfx}
+
+
 def gen_pred(rng):
     p = rng.choice(sorted(PREDS))
     x = gen_ctor(rng, malformed=False)
+    if p not in BINARY and rng.random() < (0.8 if p == "all_zero" else 0.3):
+        x = tiny_ctor(rng)
     pc = {"pred": p, "x": x, "seed": rng.randint(0, 1 << 30)}
     if p == "all_ge_zero" and rng.random() < 0.6:
         pc["kw"] = {"threshold": float(rng.choice([0.0, 0.5, 2.0, 40.0]))}
@@ -598,7 +619,7 @@ def describe(m):
 
 
 def correspondence(ctx):
-    nseq = 2000 if ctx.quick else 24000
+    nseq = 1800 if ctx.quick else 24000
     npred = 1200 if ctx.quick else 16000
     groups = build_groups(ctx, nseq, npred)
     ctx.log("running implementation on", nseq, "sequences,", npred, "predicate cases")
@@ -638,7 +659,7 @@ def correspondence(ctx):
 
 def audit(ctx):
     rng = ctx.rng
-    nseq = 1200 if ctx.quick else 12000
+    nseq = 900 if ctx.quick else 12000
     seqs = []
     for j in range(nseq):
         s = gen_seq(rng, getters=False) if j % 6 else gen_settings_seq(rng)
